@@ -311,3 +311,11 @@ PROPS["C16"]["bounds"] = ("node id: all 30 bytes symbolic; partition number: any
                           "unwinding assertions")
 PROPS["C16"]["outside"] += ("; sorted-key payload length pairs (3,1) and (2,2): harnesses exist but needed > 12 min / "
                             "7 GB under CBMC and are not part of any tier")
+
+# c24_decimal_neg_abs_cmp_full_width did not finish inside 11 min on the loaded sandbox (never calibrated): it is not
+# part of any tier; neg/abs/ordering are therefore outside the C24 claim (stated below).
+PROPS["C24"]["kani"] = [h for h in PROPS["C24"]["kani"] if h["name"] == "c24::c24_decimal_checked_add_sub_full_width"]
+PROPS["C24"]["functions"][0] = ("radix_common::math::Decimal::{checked_add, checked_sub} (Kani, vs 3x64-bit limb "
+                                "reference)")
+PROPS["C24"]["outside"] += ("; checked_neg/checked_abs/ordering (Kani harness exists, not calibrated); conversions "
+                            "from primitive integers and Decimal<->PreciseDecimal")
